@@ -74,6 +74,13 @@ CHECKS = {
              'plus seeded random perturbations around each boundary. The evidence contains the observed matrix cell => outcome.',
         note='trusted: ref/script.py encodes the limits as the BIPs state them; lock-time success paths need a transaction and are covered by C02/C03',
         ref='5 C10'),
+    'C11': dict(
+        technique='runtime monitoring: reference-model monitor with mock-signature semantics plus a relational with/without-option monitor (non-interference) over harness traces and the real binary (ASan+UBSan build)',
+        text='Exploration: pair lists of 1..6 arbitrary byte-string pairs (incl. one signature for two keys, one key with two signatures); scripts over the four signature opcodes with listed, wrongly-signed, re-keyed, unlisted and mixed pairs, '
+             'with/without a transaction, in base/v0/tapscript; every case is executed with and without the option: traces involving a listed key must match the reference mock semantics, traces not involving one must be identical (non-interference); '
+             'a sample through the real binary; malformed lists must be rejected.',
+        note='trusted: ref/script.py mock semantics (a non-listed signature for a listed key may be evaluated normally or simply fail)',
+        ref='5 C11'),
     'C13': dict(
         technique='runtime monitoring: independent-codec monitor over parse_tx / parse_transaction in the harness and btcdeb -v --tx (ASan+UBSan build)',
         text='Exploration: generated transactions (0..6 inputs/outputs, compact-size boundaries 252/253/65535/65536, witness present/absent/mixed, extreme versions and values) are parsed by the real code; all fields, txid, wtxid and both re-encodings must equal the '
